@@ -182,3 +182,12 @@ def run(res, facts, tier):
     _run_c01_prev_vars(res, facts, tier)
     from . import c01_vars
     c01_vars.run_rule(res, facts, tier)
+
+
+_run_c01_prev_number = run
+
+
+def run(res, facts, tier):
+    _run_c01_prev_number(res, facts, tier)
+    from . import c01_number
+    c01_number.run_rule(res, facts, tier)
